@@ -51,6 +51,15 @@ func ParseFar(layout string, s *smt.Term) *smt.Term {
 	return smt.UF("tparse_far_"+layoutID(layout), []string{"String"}, &smt.Term{K: smt.KBool}, s)
 }
 
+// ParseZeroT: the timestamp denotes exactly 0001-01-01T00:00:00Z, Go's zero time.Time (any zone spelling of it).
+func ParseZeroT(layout string, s *smt.Term) *smt.Term {
+	if s.Const {
+		t, err := time.Parse(layout, s.Str)
+		return smt.Bool(err == nil && t.IsZero())
+	}
+	return smt.UF("tparse_zero_"+layoutID(layout), []string{"String"}, &smt.Term{K: smt.KBool}, s)
+}
+
 // farAxiom: Far(s) => Inst(s) saturated
 func (in *Interp) farAxiom(layout string, s *smt.Term) {
 	if s.Const {
@@ -58,6 +67,8 @@ func (in *Interp) farAxiom(layout string, s *smt.Term) {
 	}
 	inst := ParseInst(layout, s)
 	in.assumeOnce(smt.Implies(ParseFar(layout, s), smt.Or(smt.Eq(inst, smt.BV(1<<63, 64)), smt.Eq(inst, smt.BV(1<<63-1, 64)))))
+	// the zero time is a far-past instant
+	in.assumeOnce(smt.Implies(ParseZeroT(layout, s), smt.And(ParseFar(layout, s), smt.Eq(inst, smt.BV(1<<63, 64)))))
 }
 
 // ParseZ: the parsed value is held in UTC (the string spells its zone as "Z" / +00:00) rather than with a zone offset.
@@ -140,6 +151,7 @@ func init() {
 		ir.Extra["empty"] = smt.Eq(s, smt.StrLit(""))
 		ir.Extra["z"] = ParseZ("2006-01-02T15:04:05Z07:00", s)
 		ir.Extra["far"] = ParseFar("2006-01-02T15:04:05Z07:00", s)
+		ir.Extra["zero"] = ParseZeroT("2006-01-02T15:04:05Z07:00", s)
 		in.farAxiom("2006-01-02T15:04:05Z07:00", s)
 		in.Assume(smt.Implies(ok, smt.Not(smt.Eq(s, smt.StrLit("")))))
 		return s
@@ -188,7 +200,7 @@ func init() {
 		ok := ParseOK(lt.Str, s)
 		if in.Branch(ok) {
 			in.farAxiom(lt.Str, s)
-			return Tuple{&TimeV{Inst: ParseInst(lt.Str, s), UTC: ParseZ(lt.Str, s), Clock: "parsed", Far: ParseFar(lt.Str, s)}, nilError()}
+			return Tuple{&TimeV{Inst: ParseInst(lt.Str, s), UTC: ParseZ(lt.Str, s), Clock: "parsed", Far: ParseFar(lt.Str, s), ZeroT: ParseZeroT(lt.Str, s)}, nilError()}
 		}
 		return Tuple{zeroValue(fn.Signature.Results().At(0).Type()), in.opaqueError("timeparse")}
 	}
@@ -215,7 +227,11 @@ func init() {
 		return smt.Ite(smt.BVSlt(x.Inst, y.Inst), smt.BV(^uint64(0), 64), smt.Ite(smt.Eq(x.Inst, y.Inst), smt.BV(0, 64), smt.BV(1, 64)))
 	}
 	models["(time.Time).IsZero"] = func(in *Interp, fn *ssa.Function, a []Value) Value {
-		return smt.Bool(timeArg(in, a[0]).IsZero)
+		x := timeArg(in, a[0])
+		if x.ZeroT != nil {
+			return x.ZeroT
+		}
+		return smt.Bool(x.IsZero)
 	}
 	models["(time.Time).UTC"] = func(in *Interp, fn *ssa.Function, a []Value) Value {
 		x := timeArg(in, a[0])
